@@ -40,14 +40,16 @@ def mc_cfgs(ctx):
         ("find_star_anylie", base(N=4, Alpha=2, Repl=3, InitC=[1, 4], Topo="star", Liars=[4], Lies="<- AllLies")),
         ("find_two_a3r1", base(N=6, Alpha=3, Repl=1, InitC=[2, 5], Topo="two", Late=True)),
         ("get_quorum2", base(Kind="get", Repl=3, Need=2, InitC=[3], RecAt=[2, 4])),
-        ("get_local_all", base(Kind="get", Repl=2, Need=2, LocalRec=1, InitC=[2, 5], RecAt=[1, 3], Topo="two", Late=True)),
+        ("get_local_n3", base(Kind="get", Repl=3, Need=3, LocalRec=1, InitC=[2, 5], RecAt=[1, 3], Topo="two", Late=True)),
+        ("find_clique7", base(N=7, Alpha=3, Repl=3, InitC=[7, 4], Topo="clique", Late=True)),
+        ("find_chain_anylie", base(N=5, Alpha=2, Repl=2, InitC=[3, 5], Liars=[3, 4], Lies="<- AllLies")),
         ("prov_clique", base(Kind="prov", InitC=[5], Topo="clique", ProvAt=[2, 3], ProvSet=[0, 4], Known=[1])),
         ("track", base(N=4, Kind="track", Need=2, InitC=[1, 2, 3], Topo="none")),
     ]
     if not ctx.quick():
         cfgs += [
-            ("find_clique7", base(N=7, Alpha=3, Repl=3, InitC=[7, 4], Topo="clique", Late=True)),
-            ("find_chain_anylie", base(N=5, Alpha=2, Repl=2, InitC=[3, 5], Liars=[3, 4], Lies="<- AllLies")),
+            ("find_clique8", base(N=8, Alpha=3, Repl=4, InitC=[8, 4], Topo="clique", Late=True)),
+            ("find_two_anylie", base(N=6, Alpha=2, Repl=2, InitC=[2, 5], Topo="two", Liars=[1, 5], Lies="<- AllLies")),
             ("find_two_a1r3", base(N=7, Alpha=1, Repl=3, InitC=[7], Topo="two")),
             ("find_empty", base(N=3, Alpha=2, Repl=2, InitC=[], Topo="none")),
             ("get_chain_liar", base(N=6, Kind="get", Alpha=3, Repl=3, Need=3, InitC=[6, 1], RecAt=[1, 2, 3, 4],
@@ -66,7 +68,8 @@ def gen_cfgs(ctx):
         base(N=5, Alpha=1, Repl=2, InitC=[5, 2], Topo="closer"),
         base(N=4, Alpha=3, Repl=1, InitC=[4, 1], Topo="clique"),
         base(Kind="get", Repl=3, Need=2, InitC=[3], RecAt=[2, 4]),
-        base(Kind="get", Repl=2, Need=2, LocalRec=1, InitC=[2, 5], RecAt=[1, 3], Topo="two"),
+        base(Kind="get", Repl=3, Need=3, LocalRec=1, InitC=[2, 5], RecAt=[1, 3], Topo="two"),
+        base(N=5, Alpha=2, Repl=2, InitC=[2, 5], Topo="two", Late=True),
         base(Kind="prov", N=4, InitC=[4], Topo="clique", ProvAt=[2, 3], ProvSet=[0, 4], Known=[1]),
         base(N=4, Kind="track", Need=2, InitC=[1, 2, 3], Topo="none"),
     ]
